@@ -3638,9 +3638,11 @@ class Fused(Blockwise):
         graph = {self._name: (self.exprs[0]._name, index)}
         for _expr in self.exprs:
             if isinstance(_expr, Fused):
-                subgraph, name = _expr._task(index)[1:3]
+                # A nested group that is broadcasted is only defined for index 0
+                i = 0 if self._broadcast_dep(_expr) else index
+                subgraph, name = _expr._task(i)[1:3]
                 graph.update(subgraph)
-                graph[(name, index)] = name
+                graph[(name, i)] = name
             elif self._broadcast_dep(_expr):
                 # When _expr is being broadcasted, we only
                 # want to define a fused task for index 0
